@@ -91,6 +91,9 @@ template <typename T> static uint64_t rt_compute(const uint8_t* p, size_t n, uin
   return nop::SipHash::Compute(nop::BlockReader<T>(reinterpret_cast<const T*>(p), n), k0, k1);
 }
 
+// user byte containers whose size() / operator[] use other integer types than std::size_t (a Qt-style int size, a small fixed-capacity buffer with a
+// uint8_t / uint16_t length, a signed-char element type): Compute accepts anything with size() and operator[]
+template <typename S, typename E> struct NarrowBuf { const uint8_t* p; S n; S size() const { return n; } E operator[](S i) const { return (E)p[(size_t)i]; } };
 static void c18_random(uint64_t ncases) {
   const std::string T = "siphash-random";
   for (uint64_t c = 0; c < ncases; c++) {
@@ -116,6 +119,12 @@ static void c18_random(uint64_t ncases) {
     uint64_t g_vc = nop::SipHash::Compute(std::vector<char>(reinterpret_cast<const char*>(h), reinterpret_cast<const char*>(h) + len), k0, k1);
     uint64_t g_vs = nop::SipHash::Compute(std::vector<signed char>(reinterpret_cast<const signed char*>(h), reinterpret_cast<const signed char*>(h) + len), k0, k1);
     uint64_t g_vu = nop::SipHash::Compute(std::vector<uint8_t>(h, h + len), k0, k1);
+    { uint64_t nb[4] = {nop::SipHash::Compute(NarrowBuf<int, char>{h, (int)len}, k0, k1), nop::SipHash::Compute(NarrowBuf<unsigned, uint8_t>{h, (unsigned)len}, k0, k1),
+                        nop::SipHash::Compute(NarrowBuf<uint16_t, signed char>{h, (uint16_t)len}, k0, k1), len < 256 ? nop::SipHash::Compute(NarrowBuf<uint8_t, uint8_t>{h, (uint8_t)len}, k0, k1) : ref};
+      static const char* nn[4] = {"container with int size() and char elements", "container with unsigned size()", "container with uint16_t size() and signed char elements", "container with uint8_t size()"};
+      rep().count("c18_user_containers_with_narrow_size_types", 4);
+      for (int gi = 0; gi < 4; gi++) if (nb[gi] != ref) rep().violation(fmt("oracle-siphash:runtime-container:%s", nn[gi]), fmt("SipHash::Compute(%s) = %016" PRIx64 " but SipHash-2-4 = %016" PRIx64 " (len %zu)", nn[gi], nb[gi], ref, len),
+                                                                         case_desc(T, (int64_t)c, "runtime", J().u("len", len).u("k0", k0).u("k1", k1).s("bytes", hex(h, len, 64)).str())); }
     // a reader object that is re-seated by assignment (and one that is copy-constructed) hashes the bytes it now refers to, with their length
     { static const uint8_t other[13] = {1, 2, 3, 4, 5, 6, 7, 8, 9, 10, 11, 12, 13};
       nop::BlockReader<uint8_t> rd(other, (len % 2) ? sizeof other : 3); rd = nop::BlockReader<uint8_t>(h, len); nop::BlockReader<uint8_t> cp(rd);
@@ -202,6 +211,7 @@ static void c18_names() {
     // selector = SipHash-2-4(method name + NUL, key0 = interface hash (as computed by the library), key1 = interface key1), truncated
     uint64_t sref = refsip::siphash24((const uint8_t*)m.mname, strlen(m.mname) + 1, m.ct_ihash, IK1);
     if (m.bits == 32) sref &= 0xffffffffull;
+    if (m.bits == 32 && (sref == 0 || sref == 1 || sref == 0x7fffffffull || sref == 0x80000000ull || sref == 0xffffffffull)) rep().count("c18_selectors_at_the_edges_of_the_32bit_range");
     if (m.ct_selector != sref) rep().violation("oracle-selector:compile-time!=reference", fmt("selector of %s::%s = %016" PRIx64 " != reference %016" PRIx64, m.iname, m.mname, m.ct_selector, sref), cj);
     if (m.ct_selector_by_index != m.ct_selector) rep().violation("oracle-selector:GetMethodSelector", "GetMethodSelector<Index>() != Method::Selector", cj);
     if (rep().want_sample("method-selector")) rep().sample("method-selector", J().s("interface", std::string(m.iname, m.ilen)).s("method", m.mname).u("bits", m.bits).s("selector", fmt("%" PRIx64, m.ct_selector)).str());
@@ -346,6 +356,25 @@ static void c20_const() {
     if (memcmp(exp, q.out, q.size) != 0) rep().violation(fmt("oracle-endian:constant-initialiser:%s", q.what), fmt("%s holds bytes %s, expected bytes %s", q.what, hex(q.out, q.size, 16).c_str(), hex(exp, q.size, 16).c_str()), case_desc("const", (int64_t)i, "const"));
   }
 }
+// cv-qualified spellings of the arithmetic types (HostEndian<decltype(s.member)> for a const member, a volatile device register type) and bool
+template <typename Q, typename T> static void cv_one(const char* qname, T x) {
+  const T fb = nop::HostEndian<Q>::FromBig(x), tb = nop::HostEndian<Q>::ToBig(x), fl = nop::HostEndian<Q>::FromLittle(x), tl = nop::HostEndian<Q>::ToLittle(x);
+  lean_one<T>(fmt("HostEndian<%s>::FromBig", qname).c_str(), x, fb, true); lean_one<T>(fmt("HostEndian<%s>::ToBig", qname).c_str(), x, tb, true);
+  lean_one<T>(fmt("HostEndian<%s>::FromLittle", qname).c_str(), x, fl, false); lean_one<T>(fmt("HostEndian<%s>::ToLittle", qname).c_str(), x, tl, false);
+  const T back = nop::HostEndian<Q>::ToBig(fb); if (!biteq(back, x)) rep().violation(fmt("oracle-endian:HostEndian<%s>::ToBig(FromBig(x))", qname), fmt("HostEndian<%s>: ToBig(FromBig(bytes %s)) = bytes %s", qname, bits(x).c_str(), bits(back).c_str()), case_desc(qname, -1, "cv"));
+  rep().count("c20_values_through_cv_qualified_types_and_bool", 4);
+}
+static void c20_cv() {
+  if (!mine(21)) return;
+  Rng r = case_rng("cv", 0);
+  cv_one<bool, bool>("bool", false); cv_one<bool, bool>("bool", true);
+  for (int i = 0; i < 3000; i++) {
+    uint64_t u = i < 8 ? (0x0102030405060708ull << (i * 8 % 64)) | (uint64_t)i : r.next(); float f; uint32_t fb = (uint32_t)(u >> 7); if (i % 5 == 0) fb = (fb & 0x007fffffu) | 0x7f800000u | (fb & 0x80000000u); memcpy(&f, &fb, 4);
+    double d; uint64_t db = (i % 5 == 1) ? ((u & 0x000fffffffffffffull) | 0x7ff0000000000000ull) : u; memcpy(&d, &db, 8);
+    cv_one<const float, float>("const float", f); cv_one<volatile float, float>("volatile float", f); cv_one<const double, double>("const double", d); cv_one<const volatile double, double>("const volatile double", d);
+    // (const-qualified integral types are not accepted by the integral specialisation - it assigns to a local of type T - so only the floating-point ones exist)
+  }
+}
 template <typename T, typename U> static void c20_type(const char* tname, int unit) {
   // U = unsigned integer of the same width, used to enumerate bit patterns
   if (!selected(tname, -1) && !args().only_type.empty()) return;
@@ -415,7 +444,7 @@ int vf::engine_main() {
     c20_type<float, uint32_t>("float", 8); c20_type<double, uint64_t>("double", 9);
     // the integral types that are distinct from every fixed-width typedef on this ABI ("every integral value" is not only the <cstdint> names)
     c20_type<long long, uint64_t>("long long", 10); c20_type<unsigned long long, uint64_t>("unsigned long long", 11);
-    c20_lean(); c20_early(); c20_ndebug(); c20_const();
+    c20_lean(); c20_early(); c20_ndebug(); c20_const(); c20_cv();
     c20_type<char, uint8_t>("char", 12); c20_type<wchar_t, uint32_t>("wchar_t", 13); c20_type<char16_t, uint16_t>("char16_t", 14); c20_type<char32_t, uint32_t>("char32_t", 15);
     return 0;
   }
